@@ -79,6 +79,8 @@ def run(chk):
     if not rule_bindings_eval(chk):
         rule_peel(chk)
     rule_inline_constants(chk)
+    import c06
+    c06.rule_group_index_eval(chk, prefix="C18.groups")     # both exporters file a binding under the group it was registered for, whatever the order
     import c02
     c02.rule_simplify_cbuffers_eval(chk, prefix="C18.cbuffers")     # Metal-only pass: every cbuffer keeps a global with its name and slot
     import c05
